@@ -170,6 +170,21 @@ def gen(ctx):
             toks.append(hexs(s))
         lines.append("b64raw " + " ".join(toks))
     grouped(lines, 30)
+    # alphabet characters only, EVERY length 0..70 (not only multiples of four: a decoder that sizes its result from the
+    # length must not write behind it for a missing or partial last group), and real encodings with their padding cut off
+    ab = [ord(c) for c in "ABCDEFGHIJKLMNOPQRSTUVWXYZabcdefghijklmnopqrstuvwxyz0123456789+/"]
+    lines = []
+    for n in range(0, 71):
+        toks = [hexs([rng.choice(ab) for _ in range(n)]) for _ in range(2 if quick else 6)]
+        raw = [rng.getrandbits(8) for _ in range(max(1, n * 3 // 4))]
+        enc = list(b64e(raw))
+        while enc and enc[-1] == ord("="):
+            enc.pop()
+        toks.append(hexs(enc))
+        lines.append("b64raw " + " ".join(toks))
+    for k in range(0, len(lines), 8):
+        execs.append(lines[k:k + 8])                         # small executions: a sanitizer report ends only that one
+    st["base64_alphabet_only_lengths"] = 71
     # ... and with them (each first symbol its own execution: a sanitizer report ends only that one)
     alpha9 = [ord("Q"), ord("z"), ord("+"), ord("="), ord("{"), ord("-"), 0x80, 0xFF, 0x00]
     for i in range(9):
